@@ -25,8 +25,7 @@ Import ListNotations.
 
 Definition CurAt (dl : datalog) (rq : drequest) (a : kev) : Prop :=
   snd (dr_cursor rq) = nxt a /\
-  (is_res a = false ->
-   forall d, nget dl (dr_idx rq) = Some d -> stale (d_log d) (dr_cursor rq) = true ->
+  (forall d, nget dl (dr_idx rq) = Some d -> stale (d_log d) (dr_cursor rq) = true ->
              snd (dr_cursor rq) <= base_of (d_log d)).
 
 Definition key_of (o : outgoing) (rq : drequest) : dkey := (o_link o, dr_filter rq, dr_idx rq).
@@ -51,7 +50,7 @@ Record DI (st : rstate) (e : list (N * drequest)) (tr : list dev) : Prop := {
 Lemma curat_mono dl dl' rq a :
   LogsInv dl -> dl_le dl dl' -> CurOk dl (dr_idx rq) (dr_cursor rq) -> CurAt dl rq a -> CurAt dl' rq a.
 Proof.
-  intros LI [Hle _] (d & Hd & Hiss & _) [H1 H2]. split; [exact H1|]. intros Hnr. specialize (H2 Hnr).
+  intros LI [Hle _] (d & Hd & Hiss & _) [H1 H2]. split; [exact H1|].
   intros d' Hd' Hst. destruct (Hle _ _ Hd) as (d2 & Hd2 & _ & L). rewrite Hd' in Hd2. inversion Hd2; subst d2.
   destruct (li_wf _ LI _ _ Hd) as [all W]. destruct (L all W) as (xs & _ & _ & Hb & Hs).
   destruct (stale (d_log d) (dr_cursor rq)) eqn:E.
@@ -232,7 +231,7 @@ Proof.
       + destruct Hh as [Hh | [E | []]].
         * exfalso. eapply Hnew; eassumption.
         * inversion E; subst c r. rewrite Ek, ktrace_snoc_same, last_opt_snoc in Hl by reflexivity. inversion Hl; subst a.
-          split; [reflexivity|]. intros _. cbn [rq dr_idx dr_cursor]. intros d0 Hd0 Hs0.
+          split; [reflexivity|]. cbn [rq dr_idx dr_cursor]. intros d0 Hd0 Hs0.
           change (r_datalog st3) with (r_datalog st) in Hd0. rewrite Hd in Hd0. inversion Hd0; subst d0. congruence.
       + rewrite ktrace_snoc_other in Hl by exact Hne.
         destruct Hh as [Hh | [E | []]]; [eapply D4; eauto; now left|].
